@@ -3,7 +3,7 @@
 # applies a seeded change to /repo, runs the named quick checks, restores /repo and /verif/evidence,
 # and moves the replay files produced by the mutant into <out-dir>/replays
 set -u
-PATCH="$1"; OUT="$2"; shift 2
+PATCH="$(realpath "$1")"; OUT="$(realpath "$2")"; shift 2
 cd /verif
 if [ -n "$(git -C /repo status --porcelain --untracked-files=no)" ]; then echo "/repo is dirty; refusing"; exit 2; fi
 git -C /repo apply "$PATCH" || { echo "patch does not apply"; exit 2; }
